@@ -81,3 +81,99 @@ func H_C08_corrupt() {
 }
 
 var _ = parse.Parse
+
+// ---- C08.3 layout independence: the same token sequence under every separator gives the same meaning ----
+
+var c08Seps = []string{" ", "\n", "\t", "\r\n", "\r", " --c\n", " --[\n", " --[[x]] ", " --[==[x\n]==] ", " --]]\n", "\n\n", " --[=\n"}
+
+type c08prog struct {
+	toks []string
+}
+
+var c08Progs = []c08prog{
+	{[]string{"local", "x", "=", "1", "x", "=", "x", "+", "1", "return", "x"}},
+	{[]string{"local", "t", "=", "{", "1", ",", "2", ",", "}", "return", "#", "t"}},
+	{[]string{"local", "s", "=", "0", "for", "i", "=", "1", ",", "3", "do", "s", "=", "s", "+", "i", "end", "return", "s"}},
+	{[]string{"local", "f", "=", "function", "(", "a", ")", "return", "a", "*", "2", "end", "return", "f", "(", "4", ")"}},
+	{[]string{"local", "a", "=", "'q'", "if", "a", "==", "'q'", "then", "return", "1", "else", "return", "2", "end"}},
+	{[]string{"local", "n", "=", "0", "while", "n", "<", "3", "do", "n", "=", "n", "+", "1", "end", "return", "n", ";"}},
+}
+
+// C08.layout — comment forms, blank space and line ends between tokens do not change the meaning.
+//
+//verif:harness prop=C08 tier=quick qparams=gaps:1 tparams=gaps:2 bounds="6 token sequences; gaps (1 quick / 2 thorough positions chosen per path) filled from 12 separators: blank, tab, LF, CR, CRLF, line comments (incl. the texts `[`, `[=` and `]]`), long comments of level 0 and 2 spanning lines; every other gap is a single blank"
+func H_C08_layout() {
+	p := c08Progs[VChoice(len(c08Progs))]
+	ngaps := VParam("gaps", 2)
+	special := map[int]string{}
+	for g := 0; g < ngaps; g++ {
+		pos := VChoice(len(p.toks) - 1)
+		special[pos] = c08Seps[VChoice(len(c08Seps))]
+	}
+	canon, varied := "", ""
+	for i, t := range p.toks {
+		canon += t
+		varied += t
+		if i < len(p.toks)-1 {
+			canon += " "
+			if s, ok := special[i]; ok {
+				varied += s
+			} else {
+				varied += " "
+			}
+		}
+	}
+	L := newL(Options{}, BaseLibName)
+	VAssert(loadRun(L, canon, 1) == nil, "layout: canonical rendering runs")
+	want := L.Get(-1)
+	L.SetTop(0)
+	err := loadRun(L, varied, 1)
+	VAssert(err == nil, "layout: every lexical rendering of an accepted program is accepted")
+	VAssert(sameValue(L.Get(-1), want), "layout: the meaning does not depend on comments, blank space or line ends")
+	VReach("end")
+}
+
+var c08Invalid = []string{
+	"break",
+	"local a, b do goto l1 local x ::l1:: print(x) end",
+	"for i = 1, 2 do local o = 1; do goto continue; local x = 2; ::continue:: print(x) end end",
+	"do goto l1 end local x ::l1:: print(x)",
+	"goto nowhere",
+	"::a:: ::a::",
+	"local function f() local a do goto skip local b ::skip:: b = 1 end end",
+	"return return",
+	"x = = 1",
+	"local 1 = 2",
+	"for i = 1 do end",
+	"f(",
+	"a.b:c = 1",
+	"local t = {1, 2",
+	"x = 'unfinished",
+	"x = [[unfinished",
+	"--[[ unfinished comment",
+	"x = 1 .. ",
+	"if x then else elseif y then end",
+	"function f(a, ..., b) end",
+	"local x <const> = 1",
+	"x = 0x",
+	"x = 1e",
+	"x = '\\400'",
+}
+
+// C08.invalid — programs the grammar or the compiler must reject yield a syntax-classified error, never a panic.
+//
+//verif:harness prop=C08 tier=quick bounds="24 invalid programs: misplaced break, goto into the scope of a local at several nestings, unknown/duplicate labels, malformed statements, unfinished strings/comments, malformed numbers and escapes; each optionally wrapped in 0..2 enclosing functions with locals"
+func H_C08_invalid() {
+	src := c08Invalid[VChoice(len(c08Invalid))]
+	switch VChoice(3) {
+	case 1:
+		src = "local p, q = 1, 2; local function w(a, b) " + src + " end"
+	case 2:
+		src = "local p; for i = 1, 2 do local function w(...) local c, d; " + src + " end end"
+	}
+	L := newL(Options{}, BaseLibName)
+	loaded, syn := loadBytes(L, []byte(src))
+	VAssert(!loaded, "invalid: a malformed program is not accepted: "+src)
+	VAssert(syn, "invalid: the failure is classified as a syntax/compile error: "+src)
+	VReach("end")
+}
